@@ -454,7 +454,7 @@ cdef class InterCoefficient(Coefficient):
         diff = np.diff(self.np_arrays[0])
         if dt is not None:
             self.dt = dt
-        elif len(diff) >= 1 and np.allclose(diff[0], diff):
+        elif len(diff) >= 1 and np.allclose(diff[0], diff, atol=0):
             self.dt = diff[0]
         else:
             self.dt = 0
@@ -493,6 +493,14 @@ cdef class InterCoefficient(Coefficient):
             return self.poly[-1, -1]
         if self.dt:
             idx = <size_t>((t - self.tlist[0]) / self.dt)
+            # The grid is uniform only up to rounding and to the tolerance of
+            # the detection: the computed index can be off, correct it.
+            if idx + 2 > <size_t> self.tlist.shape[0]:
+                idx = self.tlist.shape[0] - 2
+            while t < self.tlist[idx]:
+                idx -= 1
+            while t >= self.tlist[idx + 1]:
+                idx += 1
         else:
             idx = self._binary_search(t)
         if self.order == 0:
